@@ -129,6 +129,26 @@ and p_instr (c : cur) : instr2 =
   | "M" -> let ps = p_instrs c in let b = p_instrs c in JTemplate (ps, b)
   | "E" -> let k = int_tok c in let ps = rep k (fun () -> p_part c) in let b = p_instrs c in JElement (ps, b)
   | "N" -> JComment (p_instrs c)
+  | "LU" ->
+      let nm = p_str (next c) in
+      let ku = int_tok c in
+      let use = rep ku (fun () -> p_name c) in
+      let na = int_tok c in
+      let at = rep na (fun () -> let a = p_str (next c) in let k = int_tok c in let ps = rep k (fun () -> p_part c) in (a, ps)) in
+      let body = p_instrs c in
+      JLreU (nm, use, at, body)
+  | "EU" ->
+      let k = int_tok c in let ps = rep k (fun () -> p_part c) in
+      let ku = int_tok c in
+      let use = rep ku (fun () -> p_name c) in
+      let b = p_instrs c in
+      JElementU (ps, use, b)
+  | "AS" ->
+      let ku = int_tok c in
+      let use = rep ku (fun () -> p_name c) in
+      let na = int_tok c in
+      let at = rep na (fun () -> let a = p_str (next c) in let k = int_tok c in let ps = rep k (fun () -> p_part c) in (a, ps)) in
+      JAttrSet (use, at)
   | "J" -> let k = int_tok c in let ps = rep k (fun () -> p_part c) in let b = p_instrs c in JPI (ps, b)
   | x -> raise (Bad ("instruction " ^ x))
 
